@@ -31,6 +31,10 @@ static struct type *const ty_arith[AT_N] = {
 	&typebool, &typechar, &typeschar, &typeuchar, &typeshort, &typeushort, &typeint, &typeuint,
 	&typelong, &typeulong, &typellong, &typeullong, &typefloat, &typedouble, &typeldouble
 };
+static struct type *const ty_arithenum[BS_ENB + 1] = {
+	&typebool, &typechar, &typeschar, &typeuchar, &typeshort, &typeushort, &typeint, &typeuint,
+	&typelong, &typeulong, &typellong, &typeullong, &typefloat, &typedouble, &typeldouble, &ty_enA, &ty_enB
+};
 static struct type *const ty_base[BS_N] = {
 	&typebool, &typechar, &typeschar, &typeuchar, &typeshort, &typeushort, &typeint, &typeuint,
 	&typelong, &typeulong, &typellong, &typeullong, &typefloat, &typedouble, &typeldouble,
